@@ -106,6 +106,8 @@ fn world_dispatch_four_key_kinds() {
     let a_dir_any = world.to_direct(a_any).unwrap();
     assert!(EntityDirectAny::from(a_dir) == a_dir_any);
     assert!(world.contains(a) && world.contains(a_any) && world.contains(a_dir) && world.contains(a_dir_any));
+    assert!(world.to_direct(a_dir) == Some(a_dir) && world.to_direct(a_dir_any) == Some(a_dir_any));
+    assert!(ecs_find!(world, a_dir, |x: &CompA| x.0) == Some(1) && ecs_find!(world, a_dir_any, |x: &CompA| x.0) == Some(1));
     assert!(world.contains(b) && world.contains(b_any) && world.contains(a2));
     assert!(a_any.archetype_id() == 3 && b_any.archetype_id() == ArchBar::ARCHETYPE_ID && b_any.archetype_id() != 3);
     // a handle of one archetype is not a handle of the other
@@ -122,6 +124,13 @@ fn world_dispatch_four_key_kinds() {
     // every key kind of the destroyed entity is rejected by every path
     assert!(!world.contains(a) && !world.contains(a_any) && !world.contains(a_dir) && !world.contains(a_dir_any));
     assert!(world.to_direct(a).is_none() && world.to_direct(a_any).is_none());
+    assert!(world.to_direct(a_dir).is_none() && world.to_direct(a_dir_any).is_none());
+    assert!(world.archetype::<ArchFoo>().to_direct(a).is_none() && world.archetype::<ArchFoo>().to_direct(a_dir).is_none());
+    assert!(world.archetype::<ArchFoo>().resolve(a).is_none() && world.archetype::<ArchFoo>().resolve(a_dir).is_none());
+    assert!(ecs_find!(world, a, |x: &CompA| x.0).is_none() && ecs_find!(world, a_dir, |x: &CompA| x.0).is_none());
+    assert!(ecs_find!(world, a_dir_any, |x: &CompA| x.0).is_none());
+    assert!(ecs_find_borrow!(world, a_any, |x: &CompA| x.0).is_none() && ecs_find_borrow!(world, a_dir_any, |x: &CompA| x.0).is_none());
+    assert!(world.view(a).is_none() && world.borrow(a).is_none() && world.view(a_dir).is_none() && world.borrow(a_dir).is_none());
     assert!(world.destroy(a).is_none() && world.destroy(a_any).is_none() && world.destroy(a_dir).is_none() && world.destroy(a_dir_any).is_none());
     assert!(world.archetype::<ArchFoo>().len() == 1 && world.archetype::<ArchBar>().len() == 1);
     // the others are untouched and keep their own values
